@@ -74,10 +74,11 @@ func drawCase(rt *rapid.T) *readCase {
 	o.AA = rapid.SampledFrom([]string{"", "", "RSA", "ECDSA"}).Draw(rt, "aa")
 	o.AARSABits = rapid.SampledFrom([]int{1024, 1028, 1280, 1536}).Draw(rt, "aaBits")
 	o.AATrailer = rapid.SampledFrom([]int{0xBC, 0x34CC, 0x38CC, 0x36CC, 0x35CC}).Draw(rt, "aaTrailer")
-	o.AACurve = rapid.SampledFrom([]string{"P-256", "P-224", "P-384", "brainpoolP256r1", "P-521", "brainpoolP384r1"}).Draw(rt, "aaCurve")
+	o.AACurve = rapid.SampledFrom([]string{"P-256", "P-224", "P-384", "brainpoolP256r1", "P-521", "brainpoolP384r1", "P-256", "P-192", "brainpoolP320r1", "brainpoolP512r1"}).Draw(rt, "aaCurve")
 	o.AADER = rapid.Bool().Draw(rt, "aaDER")
 	o.CA = rapid.IntRange(0, 2).Draw(rt, "ca") > 0
-	o.CACurve = rapid.SampledFrom([]string{"P-256", "P-224", "P-384", "brainpoolP256r1", "brainpoolP320r1", "P-192"}).Draw(rt, "caCurve")
+	o.CACurve = rapid.SampledFrom([]string{"P-256", "P-224", "P-384", "brainpoolP256r1", "brainpoolP320r1", "P-192", "P-256", "P-224", "P-521", "P-521",
+		"brainpoolP192r1", "brainpoolP224r1", "brainpoolP384r1", "brainpoolP512r1"}).Draw(rt, "caCurve")
 	o.CACipher = rapid.SampledFrom([]mac.Cipher{"3DES", "AES-128", "AES-192", "AES-256"}).Draw(rt, "caCipher")
 	o.CAKeyID = rapid.Bool().Draw(rt, "caKeyId")
 	o.CAExplicit = rapid.Bool().Draw(rt, "caExplicit")
